@@ -8,7 +8,7 @@
 (* `const` (must compile, run and show the written value).                          *)
 EXTENDS Ast, TLC, Json
 
-Decls == {"mod", "mod_typed", "fn", "block", "list", "obj", "opt", "class_name", "import_mod", "export_member"}
+Decls == {"mod", "mod_typed", "mod_unpack", "fn", "block", "list", "obj", "opt", "class_name", "import_mod", "export_member"}
 Forms == {"assign", "typed", "add", "sub", "mul", "div", "rem", "unwrap", "modify", "index", "index_add", "field", "field_add",
           "counter", "unpack"}
 Contexts == {"same", "block", "nested_fn", "method", "loop_body"}
@@ -18,7 +18,7 @@ WriteEnabled(isConst) == ~isConst
 
 (* does `form` applied from `ctx` denote a write to the binding declared by `decl`? *)
 IsWrite(decl, form, ctx) ==
-    /\ CASE decl \in {"mod", "mod_typed", "fn", "block"} -> form \in {"assign", "typed", "add", "sub", "mul", "div", "rem", "modify", "counter"}
+    /\ CASE decl \in {"mod", "mod_typed", "mod_unpack", "fn", "block"} -> form \in {"assign", "typed", "add", "sub", "mul", "div", "rem", "modify", "counter"}
          [] decl = "list" -> form \in {"index", "index_add"}
          [] decl = "obj" -> form \in {"assign", "field", "field_add", "modify"}
          [] decl = "opt" -> form \in {"assign", "unwrap", "modify"}
@@ -48,12 +48,13 @@ Unpack(ns, e) == [k |-> "unpack", ns |-> ns, e |-> e]
 PClass == [k |-> "class", n |-> "P", export |-> FALSE, fields |-> <<[n |-> "v", ty |-> "int"]>>,
            ctor |-> <<[ps |-> <<>>, b |-> <<Assign(Fld(Self, "v"), "=", I(1))>>]>>, methods |-> <<>>]
 
-Name == CASE t.decl \in {"mod", "mod_typed", "fn", "block"} -> "x" [] t.decl = "list" -> "xs" [] t.decl = "obj" -> "p"
+Name == CASE t.decl \in {"mod", "mod_typed", "mod_unpack", "fn", "block"} -> "x" [] t.decl = "list" -> "xs" [] t.decl = "obj" -> "p"
           [] t.decl = "opt" -> "o" [] t.decl = "class_name" -> "P" [] t.decl \in {"import_mod", "export_member"} -> "lib"
 
 Declare(c) ==
     CASE t.decl \in {"mod", "fn", "block"} -> <<LetC("x", "", I(5), c)>>
       [] t.decl = "mod_typed" -> <<LetC("x", "int", I(5), c)>>
+      [] t.decl = "mod_unpack" -> <<[k |-> "unpack", ns |-> <<"x", "zz">>, e |-> List(<<I(5), I(6)>>), const |-> c]>>   \* `const [x, zz] = [5, 6]`
       [] t.decl = "list" -> <<LetC("xs", "[int...]", List(<<I(1), I(2)>>), c)>>
       [] t.decl = "obj" -> <<LetC("p", "", New("P", <<>>), c)>>
       [] t.decl = "opt" -> <<LetC("o", "int?", I(5), c)>>
